@@ -2,7 +2,7 @@
 Inductions over the recursion of `factorImpl`, all driven by the shape lemma:
 * `factorImpl_ext`   (ANY oracle): a successful run only appends; every appended element was
   accepted by `o.prime` (in some oracle state) or is logged as a give-up; 1 is never appended;
-* `factorImpl_prod_aux` (under `OracleOK`): the product of the vector is multiplied by `n`;
+* `factorImpl_mul` (under `OracleOK`): a block of product `n` is appended to the vector;
 * `factorImpl_total_aux` (under `OracleOK`, selector precondition, enough fuel, `rho` never
   failing when the selector is Rho): the run ends with `.ok`.
 -/
@@ -186,26 +186,48 @@ theorem factorImpl_ext (o : Oracle σ) (alg : Algo) :
 
 /-! ### B. exact product (under the oracle contract) -/
 
-theorem bindList_prod {f : St σ → Nat → Res (St σ)} {L : List Nat}
-    (hf : ∀ m ∈ L, ∀ s s', f s m = .ok s' → s'.factors.prod = s.factors.prod * m) {s s' : St σ}
-    (h : bindList f L s = .ok s') : s'.factors.prod = s.factors.prod * L.prod := by
+/-- `s'` is `s` with a block of product `m` appended to the vector -/
+def Mul (s s' : St σ) (m : Nat) : Prop :=
+  ∃ new : List Nat, s'.factors = s.factors ++ new ∧ new.prod = m
+
+theorem Mul.of_sim {s s1 : St σ} (h : s.sim s1) : Mul s s1 1 := ⟨[], by simp [h.1], rfl⟩
+
+theorem Mul.trans {s s1 s2 : St σ} {a b : Nat} (h1 : Mul s s1 a) (h2 : Mul s1 s2 b) :
+    Mul s s2 (a * b) := by
+  obtain ⟨n1, hf1, hp1⟩ := h1
+  obtain ⟨n2, hf2, hp2⟩ := h2
+  exact ⟨n1 ++ n2, by rw [hf2, hf1, List.append_assoc], by rw [List.prod_append, hp1, hp2]⟩
+
+theorem Mul.sim_left {s s1 s2 : St σ} {a : Nat} (h : s.sim s1) (h2 : Mul s1 s2 a) : Mul s s2 a := by
+  have := (Mul.of_sim h).trans h2
+  rwa [Nat.one_mul] at this
+
+theorem Mul.push {s s1 : St σ} (h : s.sim s1) (n : Nat) : Mul s (s1.push n) n :=
+  ⟨[n], by simp [St.push, h.1], by simp⟩
+
+theorem Mul.giveup {s s1 : St σ} (h : s.sim s1) (n : Nat) : Mul s (s1.giveup n) n :=
+  ⟨[n], by simp [St.giveup, h.1], by simp⟩
+
+theorem bindList_mul {f : St σ → Nat → Res (St σ)} {L : List Nat}
+    (hf : ∀ m ∈ L, ∀ s s', f s m = .ok s' → Mul s s' m) {s s' : St σ}
+    (h : bindList f L s = .ok s') : Mul s s' L.prod := by
   induction L generalizing s with
   | nil =>
     simp only [bindList] at h
-    injection h with h; subst h; simp
+    injection h with h; subst h
+    exact Mul.of_sim (St.sim_refl _)
   | cons a as ih =>
     rw [bindList] at h
     split at h
     · rename_i s1 h1
-      rw [ih (fun m hm => hf m (by simp [hm])) h, hf a (by simp) s s1 h1, List.prod_cons,
-        Nat.mul_assoc]
+      rw [List.prod_cons]
+      exact (hf a (by simp) s s1 h1).trans (ih (fun m hm => hf m (by simp [hm])) h)
     · exact absurd h (by simp)
     · exact absurd h (by simp)
 
-/-- **B.** Under `OracleOK`, for `n ≥ 1`: a successful run multiplies the product by `n`. -/
-theorem factorImpl_prod_aux {o : Oracle σ} (hok : OracleOK o) (alg : Algo) :
-    ∀ (fuel n : Nat) (s s' : St σ), 1 ≤ n → factorImpl o fuel n alg s = .ok s' →
-      s'.factors.prod = s.factors.prod * n := by
+/-- **B.** Under `OracleOK`, for `n ≥ 1`: a successful run appends a block of product `n`. -/
+theorem factorImpl_mul {o : Oracle σ} (hok : OracleOK o) (alg : Algo) :
+    ∀ (fuel n : Nat) (s s' : St σ), 1 ≤ n → factorImpl o fuel n alg s = .ok s' → Mul s s' n := by
   intro fuel
   induction fuel with
   | zero => intro n s s' _ h; rw [factorImpl_zero] at h; exact absurd h (by simp)
@@ -214,34 +236,35 @@ theorem factorImpl_prod_aux {o : Oracle σ} (hok : OracleOK o) (alg : Algo) :
     have sh := factorImpl_shape o fuel n alg s
     generalize factorImpl o (fuel + 1) n alg s = r at sh h
     cases sh with
-    | one h1 => injection h with h; subst h; simp [h1]
+    | one h1 => injection h with h; subst h; rw [h1]; exact Mul.of_sim (St.sim_refl _)
     | pp p k s0 hn hpp hf0 hg0 =>
       obtain ⟨s'', hr, hs'⟩ := ppResult_ok h
       obtain ⟨hpk, _, hp2⟩ := hok.pp s.os n p k (by omega) hpp
-      have := ih p s0 s'' (by omega) hr
-      rw [hf0] at this
-      rw [hs']
-      simp only [List.prod_append, replicateAppend_prod, this, List.prod_nil, Nat.one_mul, hpk]
-    | prime s1 t hn hsim hp =>
-      injection h with h; subst h; simp [St.push, hsim.1]
-    | giveup s1 hn hsim =>
-      injection h with h; subst h; simp [St.giveup, hsim.1]
+      obtain ⟨new, hf, hp⟩ := ih p s0 s'' (by omega) hr
+      rw [hf0, List.nil_append] at hf
+      exact ⟨replicateAppend k new, by rw [hs', hf], by rw [replicateAppend_prod, hp, hpk]⟩
+    | prime s1 t hn hsim hp => injection h with h; subst h; exact Mul.push hsim n
+    | giveup s1 hn hsim => injection h with h; subst h; exact Mul.giveup hsim n
     | split s1 L hn hsim hL =>
       have hn2 : 2 ≤ n := by omega
       have hparts := hL.parts hok hn2
-      rw [bindList_prod (fun m hm s s' hm' => ih m s s' (hparts m hm).1 hm') h, hsim.1,
-        (hL.ok hok hn2).1]
+      have := bindList_mul (fun m hm s s' hm' => ih m s s' (hparts m hm).1 hm') h
+      rw [(hL.ok hok hn2).1] at this
+      exact Mul.sim_left hsim this
     | sieve s1 t a ds facs hn hsim _ hc =>
       obtain ⟨hprod, hfacs⟩ := combineDivs_single hc
-      rw [bindList_prod ?_ h, hsim.1, hprod]
+      have := bindList_mul (f := finalStep o (fun m s => factorImpl o fuel m alg s) n) (L := facs)
+        ?_ h
+      · rw [hprod] at this; exact Mul.sim_left hsim this
       intro f hf s2 s2' hstep
       have hf1 : 1 ≤ f := Nat.pos_of_dvd_of_pos (hfacs f hf).1 (by omega)
       unfold finalStep at hstep
       split at hstep
-      · injection hstep with hstep; subst hstep; simp [St.giveup]
+      · injection hstep with hstep; subst hstep; exact Mul.giveup (St.sim_refl _) f
       · split at hstep
-        · exact ih f { s2 with os := (o.prime s2.os f).2 } s2' hf1 hstep
-        · injection hstep with hstep; subst hstep; simp [St.push]
+        · exact Mul.sim_left (s1 := { s2 with os := (o.prime s2.os f).2 }) ⟨rfl, rfl⟩
+            (ih f _ s2' hf1 hstep)
+        · injection hstep with hstep; subst hstep; exact Mul.push ⟨rfl, rfl⟩ f
     | panicBits => exact absurd h (by simp)
     | panicRho => exact absurd h (by simp)
     | panicUnexpected => exact absurd h (by simp)
